@@ -7,4 +7,5 @@ git -C /repo worktree remove --force $d 2>/dev/null || true
 rm -rf $d $d.verif_out
 git -C /repo worktree add -q --detach $d HEAD
 (cd /repo && find miasm -name "*.so" | while read f; do cp $f $d/$f; done)
+/venv/bin/python /verif/tools/install_ext.py $d >/dev/null
 echo $d
